@@ -57,6 +57,20 @@ Definition new_node (m : nsmap) (parent : itree) (prefix : option str) (local : 
   (* after append_children the new element inherits the parent's in-scope default namespace declaration *)
   let inherited := match in_scope_default (ipayload parent) with Some d => [(XMLNS_NS, [], d)] | None => [] end in
   INode 0%N (PTag ns local (attrs ++ inherited)) [].
+(* TagAttributes.__setitem__ validates the name that is going to be stored (/repo 528fc02, 139ed14): ValueError for the
+   local name `xmlns` and for the namespace of namespace declarations.  The assignment happens on the new element
+   before it is appended. *)
+Definition STR_xmlns : str := [120;109;108;110;115]%N.
+Definition XMLNS_URI : str :=
+  [104;116;116;112;58;47;47;119;119;119;46;119;51;46;111;114;103;47;50;48;48;48;47;120;109;108;110;115;47]%N.
+Definition reserved_attr (m : nsmap) (d : str * str * str) : bool :=
+  let '(p, k, _) := d in
+  str_eqb k STR_xmlns || str_eqb (if null p then [] else opt_default [] (ns_get m p)) XMLNS_URI.
+Definition unreserved (m : nsmap) (s : step) : bool :=
+  match s with
+  | LocationStep _ _ ps => match derived_preds ps with Some ds => negb (existsb (reserved_attr m) ds) | None => true end
+  end.
+
 (* the prefixes of the name test and of the derived attributes are declared (fixes f228380, 8d47eb7) *)
 Definition prefixes_declared (m : nsmap) (prefix : option str) (ds : list (str * str * str)) : bool :=
   forallb (fun p => null p || match ns_get m p with Some _ => true | None => false end)
@@ -127,6 +141,8 @@ Fixpoint create_in (vis : itree -> bool) (m : nsmap) (ss : list step) (pos : npa
           | _ :: _, LocationStep _ (NameMatchTest prefix local) ps =>
               match derived_preds ps with
               | Some ds =>
+                  if existsb (reserved_attr m) ds then CFault t0 (FRejected ValueError)
+                  else
                   let idx := insert_index vis (tkids t0) in
                   (* node.append_children(new_node); node = new_node; the remaining steps run on the new node *)
                   match create_in vis m r (pos ++ [idx]) (new_node m t0 prefix local ds) with
